@@ -153,8 +153,21 @@ func init() {
 func isLowWaterField(c *core.Ctx, field string) bool {
 	res := core.Memo(c, "lowwaterfields", func() map[string]bool {
 		out := map[string]bool{}
+		// the functions that delete entries and the steps of the package they call (a `limits.excess(size)` that holds the test)
+		cand := map[*ssa.Function]bool{}
 		for _, fn := range c.P.Funcs("internal/cache") {
 			if len(cacheDeleteSites(fn, 0)) == 0 {
+				continue
+			}
+			cand[fn] = true
+			an.Calls(fn, func(call ssa.CallInstruction) {
+				if h := call.Common().StaticCallee(); h != nil && len(h.Blocks) > 0 && core.FuncPkgPath(h) == core.FuncPkgPath(fn) {
+					cand[h] = true
+				}
+			})
+		}
+		for _, fn := range c.P.Funcs("internal/cache") {
+			if !cand[fn] {
 				continue
 			}
 			for _, b := range fn.Blocks {
